@@ -82,6 +82,14 @@ func Open(root string, o Opts) *Inst {
 		go in.WAL.SyncWAL(o.WALRefresh, o.PrimaryRefresh, ri)
 		in.WAL.IncrementWaitGroup()
 		in.bg = true
+		// The loop goroutine announces itself through a package flag the writers read; a request issued
+		// before the goroutine has run would flush inline, concurrently with the loop. The server starts
+		// serving long after this point; give the goroutine time to be scheduled (not part of any verdict).
+		wait := 3 * o.WALRefresh
+		if wait < 10*time.Millisecond {
+			wait = 10 * time.Millisecond
+		}
+		time.Sleep(wait)
 	}
 	return in
 }
